@@ -58,9 +58,11 @@ contract('ikesa.IkeSa._send_request', params={'request': MSG}, returns=Bytes, pr
                   'bytes': 'result == wire(request)', 'len': 'len(result) >= 28'})
 
 contract('ikesa.IkeSa._process_request', params={'message': MSG}, returns=Opt(Bytes), props=['C08'],
-         requires=['inv_ikesa(self)', 'not message.is_response', '0 <= message.message_id < 2 ** 32'],
+         requires=['inv_ikesa(self)', 'not message.is_response', '0 <= message.message_id < 2 ** 32',
+                   'self.peer_msg_id + 1 < 2 ** 32 - 1'],       # T6: Message IDs do not wrap
          modifies=EVERYTHING, raises={},
          ensures={
+             'C09:inv': 'inv_ikesa(self)',
              'replay-from-cache': 'implies(message.message_id == old(self.peer_msg_id) - 1, '
                                   'result == old(self.last_sent_response_data) and nothing_changed())',
              'out-of-window-dropped': 'implies(message.message_id != old(self.peer_msg_id) - 1 '
